@@ -471,7 +471,7 @@ func (db *TempPool) SuffrageExpelOperation(
 			case !bytes.Equal(nodeb, r.Node()):
 				return true, nil
 			case r.End() < heighti, r.Start() > heighti:
-				return false, nil
+				return true, nil
 			default:
 				enchint = ht
 				opb = left
@@ -535,7 +535,7 @@ func (db *TempPool) TraverseSuffrageExpelOperations(
 			case err != nil:
 				return false, err
 			case r.End() < heighti, r.Start() > heighti:
-				return false, nil
+				return true, nil
 			default:
 				if err := DecodeFrame(db.encs, enchint, opb, &op); err != nil {
 					return false, err
